@@ -94,6 +94,9 @@ class World:
             p = os.path.join(self.repo, PKG, rel)
             if os.path.exists(p):
                 self.modules[m] = ModuleInfo(m, p)
+        gp = os.path.join(os.path.dirname(os.path.dirname(os.path.abspath(__file__))), 'contracts', 'ghost_programs.py')
+        if os.path.exists(gp):
+            self.modules['ghost'] = ModuleInfo('ghost', gp)
         self.exc_bases = dict(BUILTIN_EXC_BASES)
         if 'exceptions' in self.modules:
             for cname, ci in self.modules['exceptions'].classes.items():
